@@ -1,11 +1,34 @@
 """C10 -- shared atoms: the squash operator merges exactly the two marked atoms."""
 import itertools
 
+import networkx as nx
+
 from .. import core, gen_graph as gg, gen_mol as gm, pipeline as pl, symx
 from .c01 import install_summaries, OPT_VARIANTS
 
 MOLS_Q = ['CCO', 'CC(C)C', 'C1CC1', 'CCCC', 'Cc1ccccc1', 'CC(=O)O', 'C=CC']
 MOLS_T = MOLS_Q + ['c1ccccc1', 'C1CCCCC1', 'CC(C)(C)C', 'OCCOCCO', 'CCc1ccccc1', 'C1CC1CO', 'C[N+](C)(C)C', 'CSC']
+
+
+# the shared-node operator at a level whose fragments are beads (last_all_atom=False): (overlapping description, disjoint
+# description of the same bead graph, number of shared pairs); '@l' / '@m' are symbolic label holes
+COARSE = [
+    ('{[#X][#Y]}.{#X=[#A][#S][!@l],#Y=[!@l][#S][#B]}', '{[#X][#Y]}.{#X=[#A][#S][$@l],#Y=[$@l][#B]}', 1),
+    ('{[#X][#Y][#Z]}.{#X=[#A][#S][!@l],#Y=[!@l][#S][#T][!@m],#Z=[!@m][#T]=[#B]}', '{[#X][#Y][#Z]}.{#X=[#A][$@l],#Y=[$@l][#S][#T]=[$@m],#Z=[$@m]=[#B]}', 2),
+    ('{[#X][#Y][#Z]}.{#X=[#A][#S][!@l],#Y=[!@l][#S]([#B])[$@m],#Z=[$@m][#C]}', '{[#X][#Y][#Z]}.{#X=[#A][$@l],#Y=[$@l][#S]([#B])[$@m],#Z=[$@m][#C]}', 1),
+]
+
+
+def fill(text, holes):
+    parts, i = [], 0
+    while i < len(text):
+        if text[i] == '@':
+            parts.append(holes[text[i + 1]])
+            i += 2
+        else:
+            parts.append(text[i])
+            i += 1
+    return symx.cat(*parts)
 
 
 class C10(core.Prop):
@@ -50,17 +73,55 @@ class C10(core.Prop):
                                 case = pl.make_case(smi, cut, comps, OPT_VARIANTS[oi])
                                 case['shared'] = [[ci, e] for ci, e in zip(subset, ends)]
                                 out.append(case)
+        for i in range(len(COARSE)):
+            for ll in (0, 1):
+                if ll == 0 and '@m' in COARSE[i][0]:
+                    continue        # two unlabelled pairs would be ambiguous: the labels are what tells them apart
+                out.append({'mode': 'coarse', 'idx': i, 'll': ll})
         return out
 
     def build(self, shape):
+        if shape.get('mode') == 'coarse':
+            over, disj, _n = COARSE[shape['idx']]
+            holes = {k: symx.SymStr.mk([symx.sym_alnum('lab%s%d' % (k, i)) for i in range(shape['ll'])]) for k in 'lm'}
+            if shape['ll']:
+                symx.ENG.add(symx.unwrap_bool(symx.bnot(holes['l'] == holes['m'])))
+            return {'text': fill(over, holes), 'disjoint': fill(disj, holes)}
         r = pl.render_case(shape)
         nfrag_atoms = sum(len(b) for b in r.blocks)
         return {'text': r.text, 'nfrag_atoms': nfrag_atoms}
 
     def execute(self, M, shape, inp):
+        if shape.get('mode') == 'coarse':
+            return [core.guard(pl.run_resolver, M, inp['text'], last_all_atom=False),
+                    core.guard(pl.run_resolver, M, inp['disjoint'], last_all_atom=False)]
         return core.guard(pl.run_resolver, M, inp['text'])
 
+    def _oracle_coarse(self, shape, inp, obs):
+        over, disj = obs
+        cl = [('accepted', over[0] == 'ok' and disj[0] == 'ok')]
+        if over[0] != 'ok' or disj[0] != 'ok':
+            return cl
+
+        def as_graph(data):
+            g = nx.Graph()
+            for n, d in data['nodes'].items():
+                g.add_node(n, **d)
+            for a, b, o, _bd in data['edges']:
+                g.add_edge(a, b, order=o)
+            return g
+        g1, g2 = as_graph(over[1]['mol']), as_graph(disj[1]['mol'])
+        cl.append(('same_molecule_as_disjoint_description',
+                   gg.iso_clause(g1, g2, lambda x, y: x.get('atomname') == y.get('atomname'), lambda x, y: gg.val_eq(x.get('order'), y.get('order')),
+                                 concrete_label=lambda d: d.get('atomname'))))
+        nshared = COARSE[shape['idx']][2]
+        nodes = over[1]['mol']['nodes']
+        cl.append(('merged_atoms_belong_to_both_nodes', sum(1 for d in nodes.values() if len(set(d.get('fragid', []))) > 1) == nshared))
+        return cl
+
     def oracle(self, shape, inp, obs):
+        if shape.get('mode') == 'coarse':
+            return self._oracle_coarse(shape, inp, obs)
         cl = [('accepted', obs[0] == 'ok')]
         if obs[0] != 'ok':
             return cl
@@ -104,6 +165,8 @@ class C10(core.Prop):
         return cl
 
     def classify(self, shape, cinp, cobs, clauses):
+        if shape.get('mode') == 'coarse':
+            return None
         # known finding: a shared *aromatic* atom makes the resolver raise "cannot be kekulized" when the stale
         # hydrogen count of the kept copy (computed inside its own fragment) makes it look saturated.
         # Signature: only the 'accepted' clause fails, with SyntaxError; some shared pair duplicates an aromatic atom;
